@@ -519,6 +519,13 @@ Theorem C08_lookahead_first_token : forall c n r1 r2 ls, pos_counter c (n :: r1)
 Proof. exact (fun c n r1 r2 => la_eq_head c n r1 r2). Qed.
 Print Assumptions C08_lookahead_first_token.
 
+(** a line that ends at this level has run through every prefix of itself: the hypothesis [run .. = inl ..] of the
+    theorems below holds for every successful line whose last level is this one *)
+Theorem C08_run_of_done : forall c pre tail ls st s, parse_loop c (pre ++ tail) ls st = ROk (LDone s) ->
+  exists ls' st', run c pre tail ls st = inl (ls', st') /\ parse_loop c tail ls' st' = ROk (LDone s).
+Proof. exact run_of_done. Qed.
+Print Assumptions C08_run_of_done.
+
 Theorem C08_run_app : forall c p q tail ls st,
   run c (p ++ q) tail ls st =
   match run c p (q ++ tail) ls st with
